@@ -171,7 +171,52 @@ def check_chain(case):
     return ("chain", t.quotient != q), fails
 
 
-DISPATCH = {"add": check_add, "cmp": check_cmp, "ff": check_from_float, "chain": check_chain}
+def _order(a, b):
+    va = None if math.isinf(a[0]) else val(*a)
+    vb = None if math.isinf(b[0]) else val(*b)
+    if va is None or vb is None:
+        return (va is None) - (vb is None)
+    return (va > vb) - (va < vb)
+
+
+def check_heap(case):
+    """case = ("heap", a, [b...]): the C heap orders times exactly as quotient-then-remainder (heap.c duplicates the
+    comparison of Time): push a then b -> the earlier one is returned; with a third, earliest entry that is returned and
+    trashed first, the sift-down comparison is exercised as well.  The list scheduler (pure Time comparisons) must agree."""
+    from jellyfysh.base.time import Time
+    from jellyfysh.scheduler.heap_scheduler.heap_scheduler import HeapScheduler
+    from jellyfysh.scheduler.list_scheduler import ListScheduler
+    _, a, others = case
+    fails = []
+    for b in others:
+        o = _order(a, b)
+        for cls in (HeapScheduler, ListScheduler):
+            for with_first in (False, True):
+                s = cls()
+                try:
+                    if with_first:
+                        s.push_event(Time(-1.0, 0.5), "first")
+                    s.push_event(Time(*a), "A")
+                    s.push_event(Time(*b), "B")
+                    if with_first:
+                        got = s.get_succeeding_event()
+                        if got != "first":
+                            fails.append(("heap-order", "%s: pushed Time(-1,0.5), %r, %r: first returned %r"
+                                          % (cls.__name__, a, b, got)))
+                        s.trash_event("first")
+                    got = s.get_succeeding_event()
+                except Exception as e:
+                    fails.append(("heap-exception", "%s: push %r, %r then get raised %r" % (cls.__name__, a, b, e)))
+                    continue
+                want = {"A"} if o < 0 else {"B"} if o > 0 else {"A", "B"}
+                if got not in want:
+                    fails.append(("heap-order", "%s%s: pushed A at Time%r then B at Time%r: returned %r, the earlier "
+                                  "one is %r" % (cls.__name__, " (after trashing an earlier root)" if with_first else "",
+                                                 a, b, got, sorted(want))))
+    return ("heap", a[0] >= 2.0 ** 31), fails
+
+
+DISPATCH = {"heap": check_heap, "add": check_add, "cmp": check_cmp, "ff": check_from_float, "chain": check_chain}
 
 
 def check_case(case):
@@ -187,6 +232,9 @@ def cases(ctx):
     times = [(q, r) for q in Q for r in R] + [(INF, INF)]
     for a in times:
         yield ("cmp", a, times)
+    finite = [t for t in times if not math.isinf(t[0])]
+    for a in finite:
+        yield ("heap", a, finite)
     for x in uniq([q + r for q in Q for r in R] + D + [2.0 ** 53, 2.0 ** 60 + 2.0 ** 9, 1e300]):
         yield ("ff", x)
     # histories of additions (BFS over sequences; alphabet simplest first)
@@ -218,7 +266,7 @@ def run(ctx):
         else:
             flat.add(s)
     res.coverage = {
-        "evaluations": adds + ntimes * ntimes * 7 + (n - len(Q) * len(R) - ntimes),
+        "evaluations": adds + ntimes * ntimes * 7 + (ntimes - 1) ** 2 * 4 + (n - 2 * len(Q) * len(R) - ntimes),
         "case_bundles": n,
         "distinct_nontrivial": len(flat),
         "rule": "every (quotient, remainder, displacement) of a critical-value lattice (powers of two up to 2^52, "
@@ -241,5 +289,5 @@ def run(ctx):
 def replay(ctx, case):
     c = dec(case["case"])
     c = tuple(c)
-    _, fails = check_case(c)
+    _, fails = par.guarded(check_case)(c)
     return sorted(k for k, _ in fails) or None
